@@ -225,10 +225,13 @@ func init() {
 		ID:        "C07",
 		Level:     "model_checking",
 		Technique: "explicit enumeration of build/append/seal/serialize/unmarshal histories over a feature-covering item alphabet on the real code; Serialize() decoded by an independent protobuf reader and compared with the supplied Datalog",
-		Rule:      "contents: every block made of <= 2 of 46 items (one per term type, set element type, operator, nesting shape, default/fresh/empty string) as authority block and as appended block after three different parents (shared, disjoint, no symbols), with and without context and root key id; histories: every sequence of 1-3 blocks of a 5-block alphabet whose blocks reuse each other's strings, x sealed/unsealed x every position of a Serialize+Unmarshal. Oracle: independent decoding + published symbol rules give back exactly the supplied facts/rules/checks/context, version 3; Unmarshal(bytes) prints the same, has the same revocation ids and key id, authorizes a 3-authorizer panel the same, and re-serializes byte-identically; harness-signed tokens whose block version is absent/0/1/2/4/2^32-1 are rejected. states = tokens checked, transitions = builder/append/seal/reload operations. Non-trivial = block with at least one item; distinct by construction.",
+		Rule:      "contents: every block made of <= 2 (thorough: <= 3) of 46 items (one per term type, set element type, operator, nesting shape, default/fresh/empty string) as authority block and as appended block after three different parents (shared, disjoint, no symbols), with and without context and root key id; histories: every sequence of 1-3 blocks of a 5-block alphabet whose blocks reuse each other's strings, x sealed/unsealed x every position of a Serialize+Unmarshal. Oracle: independent decoding + published symbol rules give back exactly the supplied facts/rules/checks/context, version 3; Unmarshal(bytes) prints the same, has the same revocation ids and key id, authorizes a 3-authorizer panel the same, and re-serializes byte-identically; harness-signed tokens whose block version is absent/0/1/2/4/2^32-1 are rejected. states = tokens checked, transitions = builder/append/seal/reload operations. Non-trivial = block with at least one item; distinct by construction.",
 		Assume:    []string{"internal/wire transcribes the published schema.proto and default symbol table", "duplicate facts are refused by the builders (ErrDuplicateFact) and are not generated"},
 		Spaces: func(c *sup.Ctx) []*sup.Space {
 			contents := itemSets(c07Items, 2)
+			if c.Thorough() {
+				contents = append(contents, itemTriples(c07Items)...)
+			}
 			parents := []refdl.Block{{}, {Facts: []refdl.Atom{atom("f", rx.Str("fresh")), atom("pair", rx.Str("x"), rx.Int(1))}}, {Facts: []refdl.Atom{atom("other", rx.Str("unrelated"))}}}
 			nc := int64(len(contents))
 			id7 := uint32(7)
@@ -314,12 +317,21 @@ func init() {
 				}
 			}}
 			versions := []*uint32{nil, u32(0), u32(1), u32(2), u32(3), u32(4), u32(4294967295)}
-			ver := &sup.Space{Name: "unsupported-versions", Size: func(*sup.Ctx) int64 { return int64(len(versions)) * 3 * 2 }, Run: func(i int64, w *sup.W) {
+			ver := &sup.Space{Name: "unsupported-versions", Size: func(*sup.Ctx) int64 { return int64(len(versions)) * 3 * 2 * 3 }, Run: func(i int64, w *sup.W) {
+				// what the block that declares the version carries: Datalog, nothing, a context only
+				carries := int(i % 3)
+				i /= 3
 				sealed := i%2 == 1
 				i /= 2
 				pos := int(i % 3)
 				v := versions[i/3]
 				blocks := []refdl.Block{c07Shared[0], c07Shared[1], c07Shared[2]}
+				switch carries {
+				case 1:
+					blocks[pos] = refdl.Block{}
+				case 2:
+					blocks[pos] = refdl.Block{Context: "only a context"}
+				}
 				tab := &wire.Table{}
 				var raw [][]byte
 				for k, b := range blocks {
@@ -332,7 +344,7 @@ func init() {
 				_, priv := hx.Keys(1)
 				env := wire.SignChain(ed25519.PrivateKey(priv), raw, 500, sealed)
 				ser := env.Encode()
-				human := fmt.Sprintf("harness-signed 3-block token, block %d declares version %s, sealed=%v", pos, idStr(v), sealed)
+				human := fmt.Sprintf("harness-signed 3-block token, block %d (%s) declares version %s, sealed=%v", pos, []string{"with Datalog content", "empty", "context only"}[carries], idStr(v), sealed)
 				w.Stats().States++
 				w.Stats().Transitions++
 				tok, err := biscuit.Unmarshal(ser)
